@@ -11,6 +11,7 @@ import (
 	"encoding/json"
 	"fmt"
 	"os"
+	"runtime/debug"
 	"sort"
 	"strings"
 	"time"
@@ -59,6 +60,7 @@ type Expect struct {
 	V        verdict  // for calls out of a live state
 	Rules    []string // violated rules when V == vReject
 	Unlisted bool     // every violated rule is outside the statement's list: a disagreement is counted, not reported
+	NViol    int      // number of violating instances (two unknown keys in one call count twice), listed or not
 	From     int      // status of the source state
 	// source state dead:
 	DeadPos     int      // position in the path of the call the model rejected
@@ -114,10 +116,39 @@ type Obs struct {
 func safeDo(inst Instance, c *Call) (res StepRes, pan string) {
 	defer func() {
 		if r := recover(); r != nil {
-			pan = firstLine(fmt.Sprint(r))
+			pan = firstLine(fmt.Sprint(r)) + " @" + panicSite(string(debug.Stack()))
 		}
 	}()
 	return inst.Do(c), ""
+}
+
+// panicSite extracts the innermost eino function on the panicking stack (stable class of a panic).
+func panicSite(stack string) string {
+	lines := strings.Split(stack, "\n")
+	after := false
+	for _, l := range lines {
+		if strings.HasPrefix(l, "panic(") {
+			after = true
+			continue
+		}
+		if after && strings.HasPrefix(l, "github.com/cloudwego/eino/") {
+			l = strings.TrimPrefix(l, "github.com/cloudwego/eino/")
+			if i := strings.LastIndexByte(l, '('); i > 0 {
+				l = l[:i]
+			}
+			// drop instantiation brackets: compose.(*Workflow[...]).compile
+			for {
+				i := strings.IndexByte(l, '[')
+				j := strings.IndexByte(l, ']')
+				if i < 0 || j < i {
+					break
+				}
+				l = l[:i] + l[j+1:]
+			}
+			return l
+		}
+	}
+	return "unknown-site"
 }
 
 func firstLine(s string) string {
@@ -243,8 +274,12 @@ func judge(cnt counters, b Builder, src Model, seq []*Call, exp Expect, traces [
 	for _, tr := range traces {
 		for i, o := range tr {
 			if o.Panic != "" {
+				site := o.Panic
+				if k := strings.LastIndex(site, " @"); k >= 0 {
+					site = site[k+2:]
+				}
 				return &finding{
-					sig: fmt.Sprintf("panic:%s:%s", b.Name(), seq[i].Op),
+					sig: fmt.Sprintf("panic:%s:%s", b.Name(), site),
 					msg: fmt.Sprintf("call %d (%s) panicked instead of returning an error: %s | %s", i+1, seq[i].Name, o.Panic, b.Name()+": "+render(seq, tr)),
 				}
 			}
@@ -358,7 +393,7 @@ func judge(cnt counters, b Builder, src Model, seq []*Call, exp Expect, traces [
 		if o.HasErr && o.Nil {
 			if exp.DeadCompile {
 				return &finding{
-					sig: "compile-error-not-sticky:" + b.Name(),
+					sig: "compile-error-not-sticky:" + b.Name() + ":" + ruleStage(exp.DeadRules),
 					msg: fmt.Sprintf("call %d (%s) was rejected [%s], yet the later call %d (%s) on the same construction succeeds: the first error does not stick | %s", exp.DeadPos+1, seq[exp.DeadPos].Name, strings.Join(exp.DeadRules, ", "), n, last.Name, ctx()),
 				}
 			}
@@ -413,6 +448,17 @@ func judge(cnt counters, b Builder, src Model, seq []*Call, exp Expect, traces [
 	return nil
 }
 
+// ruleStage tells whether a rejected Compile reported a violation committed by an earlier Add* call (builders
+// whose Add* has no error result defer it) or one that only exists at Compile time.
+func ruleStage(rules []string) string {
+	for _, r := range rules {
+		if !compileStageRules[r] {
+			return "deferred-add-rule"
+		}
+	}
+	return "compile-stage-rule"
+}
+
 func renderCalls(seq []*Call) string {
 	s := make([]string, len(seq))
 	for i, c := range seq {
@@ -435,9 +481,11 @@ func rulesAt(b Builder, seq []*Call, i int) (string, bool) {
 				if len(e.Rules) == 0 {
 					return "none", false
 				}
-				return strings.Join(e.Rules, "+"), len(e.Rules) > 1
+				return strings.Join(e.Rules, "+"), e.NViol > 1
 			case stDead:
-				return "sticky", false
+				// the sticky error repeats the text of the first error
+				r, multi := rulesAt(b, seq, e.DeadPos)
+				return "sticky(" + r + ")", multi
 			default:
 				return "compiled", false
 			}
@@ -612,7 +660,9 @@ func (e *engine) bfs(b Builder) {
 			if nd.m.Status() != stCompiled {
 				e.c.Journal(name, cs)
 			}
-			e.c.Guard(name, cs, 120*time.Second, func() error { e.expand(b, nd); return nil })
+			if err := e.c.Guard(name, cs, 120*time.Second, func() error { e.expand(b, nd); return nil }); err != nil {
+				e.c.Infra(fmt.Sprintf("check code failed on %s: %v", name, err))
+			}
 			if len(e.c.Res.Samples) < 6 && len(nd.path) >= 3 && nd.m.Status() == stCompiled {
 				e.c.Sample(map[string]any{"builder": b.Name(), "state_reached_by": names, "model_state": nd.m.Key()})
 			}
